@@ -1,5 +1,6 @@
 import FastraceModel.Model.Disabled
 import FastraceModel.Lemmas.Assoc
+import FastraceModel.Lemmas.NoReporterExec
 
 /-!
 # C16 — disabled tracing is inert and lazy
@@ -126,5 +127,28 @@ theorem C16_disabled (op : Op) :
 /-! non-vacuity: a state with a no-op span (root before the reporter is installed) -/
 example : assocGet (exec Sys.init 0 (.root "v" "n" 1 0 true)).1.spans "v" = some none := by
   simp [exec, Sys.init, assocGet, assocSet]
+
+/-! ### whole programs: nothing records before a reporter is installed -/
+
+/-- **a program that never installs a reporter is inert as a whole**: whatever it does — on any
+    number of threads, with scopes, local spans, collectors, adapters, collector cycles, thread
+    exit — no operation ever returns a report with records, an extracted context, an `elapsed()`
+    value, or runs a property closure passed to a span handle (`with_properties` /
+    `add_properties`).  Every span handle is a no-op and no scope carries a token throughout
+    (invariant `NoRep`, `Lemmas/NoReporter*.lean`).  `enter_with_parents` is excluded: over no-op
+    parents it yields a live span with an empty token whose closures do run (nothing is ever
+    delivered for it either: `C05_only_sampled_roots_delivered`). -/
+theorem C16_no_reporter_program_inert (p : Program)
+    (hp : ∀ x ∈ p, (∀ c, x.2 ≠ .setReporter c) ∧ ∀ v n ps, x.2 ≠ .childN v n ps) :
+    ∀ x ∈ p.zip (run Sys.init p).2,
+      (∀ rs, x.2 ≠ .report (some rs)) ∧ (∀ c, x.2 ≠ .ctx (some c)) ∧ x.2 ≠ .elapsed true ∧
+      ((∃ v cl, x.1.2 = .withProps v cl ∨ x.1.2 = .addProps v cl) → x.2 ≠ .closure true) :=
+  fun x hx => run_noRep p Sys.init hp NoRep.init x hx
+
+/-! non-vacuity: a program without a reporter in which a closure is offered to a span handle and to
+    a local span under a `LocalCollector`: the first is not run, the second is -/
+example : (run Sys.init [(0, .spawn), (0, .root "r" "r" 1 0 true), (0, .withProps "r" ⟨[("k", "v")], 0⟩),
+    (0, .collectorStart), (0, .localEnter "l"), (0, .lWithProps ⟨[("k", "v")], 0⟩), (0, .ctxOf "r"), (0, .cycle)]).2.map
+      (fun | .closure b => some b | _ => none) = [none, none, some false, none, none, some true, none, none] := by decide
 
 end Fastrace
